@@ -294,6 +294,51 @@ def run(ctx):
         jvp_check(ctx, 'speckle_contrast', lambda x: LW.speckle_contrast(kernel_size=3)(x).reshape(1), rnd(8, 8, lo=0.2, hi=1.0, dtype=torch.float32), 5e-2)
 
 
+def object_grad_check(ctx, name, param, forward, tol_fd, h, cls=None, rounds=2):
+    """`param` is a leaf owned by a long-lived library object and `forward()` evaluates that object: preview under no_grad, gradient by autograd,
+    finite differences by updating `param` in place (no_grad, as an optimiser step does), then a step and the same again."""
+    rng = ctx.rng
+    for rd in range(rounds):
+        try:
+            with torch.no_grad():
+                forward()
+            y = forward()
+        except Exception as e:
+            ctx.violation('%s raised %r' % (name, e), {'entry': name}, {'entry': name, 'what': 'raises'})
+            return
+        ctx.count('entry/' + name)
+        ctx.case((name, rd, float(param.detach().abs().sum())), True, None)
+        w = torch.tensor(np.array([rng.gauss(0, 1) for _ in range(y.numel())]).reshape(tuple(y.shape)), dtype=y.dtype)
+        obj = (y * w).sum()
+        if not obj.requires_grad:
+            ctx.violation('%s (round %d): the output does not depend on the learned leaf through autograd (no grad_fn)' % (name, rd),
+                          {'entry': name, 'round': rd}, dict(cls or {}, entry=name, what='no_grad'))
+            return
+        g, = torch.autograd.grad(obj, param, allow_unused=True)
+        if g is None or not torch.isfinite(g).all():
+            ctx.violation('%s (round %d): autograd returns %s for the learned leaf' % (name, rd, 'no gradient' if g is None else 'NaN/Inf'),
+                          {'entry': name, 'round': rd}, dict(cls or {}, entry=name, what='no_grad' if g is None else 'nonfinite_grad'))
+            return
+        v = torch.tensor(np.array([rng.gauss(0, 1) for _ in range(param.numel())]).reshape(tuple(param.shape)), dtype=param.dtype)
+        ad = float((g * v).sum())
+
+        def at(t):
+            with torch.no_grad():
+                param.add_(t * v)
+                val = float((forward() * w).sum())
+                param.sub_(t * v)
+            return val
+        fd, fd_half = (at(h) - at(-h)) / (2 * h), (at(0.5 * h) - at(-0.5 * h)) / h
+        if abs(fd - fd_half) > max(10 * tol_fd, 0.2) * max(1.0, abs(fd_half)):
+            ctx.count('skipped_near_nonsmooth_point/' + name)
+        elif abs(ad - fd) > tol_fd * max(1.0, abs(fd), abs(ad)):
+            ctx.violation('%s (round %d): autograd directional derivative %.8g differs from the central finite difference %.8g' % (name, rd, ad, fd),
+                          {'entry': name, 'round': rd, 'autograd': ad, 'finite_difference': fd}, dict(cls or {}, entry=name, what='grad_mismatch'))
+            return
+        with torch.no_grad():
+            param.add_(0.01 * v)          # the optimiser's step
+
+
 def more_ray_entries(ctx, rnd):
     """intersect_w_circle (ray, plane points; inside and outside the radius), planar_mesh.mirror w.r.t. the mesh heights (flat and
     rough meshes, tilted and not), the two luminous-angle generators w.r.t. origin / centre (torch reseeded before every evaluation)"""
@@ -341,6 +386,18 @@ def more_ray_entries(ctx, rnd):
                 raise RuntimeError('mirror returned %d rays for %d rays aimed inside the mesh' % (out.shape[0], trays.shape[0]))
             return torch.cat([out.reshape(-1), normals[:, 1].reshape(-1)])
         jvp_check(ctx, 'planar_mesh.mirror/heights/' + tag, f_mesh, rnd(n0, n1, 1, lo=-1.0, hi=1.0, dtype=F) * rough, 3e-2, cls={'mesh': tag}, h=5e-3)
+        # the same, the way a learning loop uses it: ONE mesh object, whose own `heights` leaf is learned; a preview under no_grad, the gradient,
+        # an update in place (as an optimiser step does), another preview, the gradient again -- each gradient against finite differences taken
+        # on the same object
+        mesh = planar_mesh(size=torch.tensor(size), number_of_meshes=torch.tensor(nodes), angles=torch.tensor(tilt), offset=torch.tensor(offset),
+                           heights=(rnd(n0, n1, 1, lo=-1.0, hi=1.0, dtype=F) * rough).clone())
+
+        def fwd(mesh=mesh, trays=trays):
+            out, normals = mesh.mirror(trays)
+            if out.shape[0] != trays.shape[0]:
+                raise RuntimeError('mirror returned %d rays for %d rays aimed inside the mesh' % (out.shape[0], trays.shape[0]))
+            return torch.cat([out.reshape(-1), normals[:, 1].reshape(-1)])
+        object_grad_check(ctx, 'planar_mesh.mirror/own heights, one object/' + tag, mesh.heights, fwd, 3e-2, 5e-3, cls={'mesh': tag})
     # luminous-angle generators: rays [n x 2 x 3] as a function of the origin / centre; the random cone directions are the same in every evaluation
     for tag, tilt, limit in (('tilted', [20., -35., 50.], 30.0), ('untilted', [0., 0., 0.], 75.0)):
         seed = rng.randrange(10 ** 6)
